@@ -1,5 +1,6 @@
 """C04 - container files are self-describing and round-trip under every codec /
 block size / stream kind."""
+import copy
 import hashlib
 import io
 import os
@@ -148,6 +149,13 @@ class C04(Check):
         cf = guard("canonical-form-of-reported-schema", fastavro.schema.to_parsing_canonical_form, wschema)
         if cf != canon.canonical(node):
             raise Violation("reported-schema-differs", f"reader reports schema with canonical form {cf!r:.300}, supplied schema has {canon.canonical(node)!r:.300}")
+        try:
+            rn, _ = M.resolve(copy.deepcopy(wschema))
+            cf2 = canon.canonical(rn)
+        except Exception as e:  # noqa: the reported schema must be a schema for an independent reader too
+            raise Violation("reported-schema-not-a-schema", f"independent resolver rejects reader.writer_schema: {type(e).__name__}: {e}; {wschema!r:.300}")
+        if cf2 != canon.canonical(node):
+            raise Violation("reported-schema-differs", f"reader.writer_schema canonicalised independently gives {cf2!r:.300}, supplied schema has {canon.canonical(node)!r:.300}")
         if codec != case["codec"]:
             raise Violation("reported-codec-differs", f"reader reports codec {codec!r}, file was written with {case['codec']!r}")
         for k, v in supplied.items():
